@@ -4,6 +4,8 @@
 //	                          tree of the function's last statement (return value), in the encoding of FoPrec.tla
 //	goast decls <file.go>     one JSON line per top-level declaration: {"kind", "name", "text"} (go/printer text)
 //	goast sigs  <file.go>     one JSON line per top-level func: {"name", "tparams", "params", "results"} (type texts)
+//	goast types <file.go>     sigs lines (plus "targs": type arguments of the first instantiation in the body) and one line
+//	                          per struct type: {"struct", "fields": [[name, type text], ...]}
 package main
 
 import (
@@ -109,7 +111,7 @@ func fieldTypes(fl *ast.FieldList) []string {
 
 func main() {
 	if len(os.Args) != 3 {
-		fmt.Fprintln(os.Stderr, "usage: goast exprs|decls|sigs file.go")
+		fmt.Fprintln(os.Stderr, "usage: goast exprs|decls|sigs|types file.go")
 		os.Exit(2)
 	}
 	f, err := parser.ParseFile(fset, os.Args[2], nil, parser.ParseComments)
@@ -164,6 +166,52 @@ func main() {
 			}
 			enc.Encode(map[string]any{"name": fd.Name.Name, "tparams": tps, "params": fieldTypes(fd.Type.Params),
 				"pnames": pnames, "results": fieldTypes(fd.Type.Results)})
+		case "types":
+			switch x := d.(type) {
+			case *ast.FuncDecl:
+				if x.Recv != nil {
+					continue
+				}
+				targs := []string{}
+				if x.Body != nil {
+					found := false
+					ast.Inspect(x.Body, func(n ast.Node) bool {
+						if found {
+							return false
+						}
+						switch ie := n.(type) {
+						case *ast.IndexExpr:
+							if _, ok := ie.X.(*ast.SelectorExpr); ok {
+								targs = append(targs, text(ie.Index))
+								found = true
+							}
+						case *ast.IndexListExpr:
+							if _, ok := ie.X.(*ast.SelectorExpr); ok {
+								for _, ix := range ie.Indices {
+									targs = append(targs, text(ix))
+								}
+								found = true
+							}
+						}
+						return !found
+					})
+				}
+				enc.Encode(map[string]any{"name": x.Name.Name, "params": fieldTypes(x.Type.Params), "results": fieldTypes(x.Type.Results), "targs": targs})
+			case *ast.GenDecl:
+				for _, sp := range x.Specs {
+					if ts, ok := sp.(*ast.TypeSpec); ok {
+						if st, ok := ts.Type.(*ast.StructType); ok {
+							fields := [][]string{}
+							for _, f := range st.Fields.List {
+								for _, n := range f.Names {
+									fields = append(fields, []string{n.Name, text(f.Type)})
+								}
+							}
+							enc.Encode(map[string]any{"struct": ts.Name.Name, "fields": fields})
+						}
+					}
+				}
+			}
 		case "decls":
 			switch x := d.(type) {
 			case *ast.FuncDecl:
